@@ -8,10 +8,11 @@ import copy
 import numpy as np
 
 from ..core import Streams, Violation, import_pyprism
-from .base import BaseWorld, lib, must_raise, wrap_keys, KEY_CONTAINERS
+from .base import BaseWorld, lib, must_raise, wrap_keys, KEY_CONTAINERS, fresh_key
 
 NAMESETS = [['A'], ['A', 'B'], ['A', 'B', 'C'], ['A', 'B', 'C', 'D'], ['poly', 'solv'], ['AB', 'A', 'B'],
-            ['x1', 'x2', 'x3', 'x4'], [1, 2, 3], ['A', 'a']]
+            ['x1', 'x2', 'x3', 'x4'], [1, 2, 3], ['A', 'a'], ['bead-0', 'bead-1', 'bead-2'], [1000, 1001], ['particle', 'polymer'],
+            ['solvent']]
 
 
 def materialise(spec):
@@ -179,13 +180,13 @@ class World(BaseWorld):
             for a in types:
                 for b in types:
                     want = model.get(frozenset((a, b)))
-                    got = lib('getitem', T.__getitem__, (a, b))
+                    got = lib('getitem', T.__getitem__, (fresh_key(a), fresh_key(b)))
                     if not same(got, want) if want is not None else got is not None:
                         raise Violation('pair_value_differs_from_model', opname,
                                         {'key': [a, b], 'got': repr(got)[:80], 'want': repr(want)[:80]}, step)
             for t in types:
                 want = vmodel.get(t)
-                got = lib('vgetitem', V.__getitem__, t)
+                got = lib('vgetitem', V.__getitem__, fresh_key(t))
                 if not same(got, want) if want is not None else got is not None:
                     raise Violation('value_differs_from_model', opname,
                                     {'key': t, 'got': repr(got)[:80], 'want': repr(want)[:80]}, step)
@@ -208,7 +209,7 @@ class World(BaseWorld):
             if name == 'set':
                 obj = materialise(op['val'])
                 l1, l2 = listify(op['k1']), listify(op['k2'])
-                lib('setitem', T.__setitem__, (wrap_keys(op['k1'], op.get('kc1')), wrap_keys(op['k2'], op.get('kc2'))), obj)
+                lib('setitem', T.__setitem__, (wrap_keys(fresh_key(op['k1']), op.get('kc1')), wrap_keys(fresh_key(op['k2']), op.get('kc2'))), obj)
                 for kk, kc in ((op['k1'], op.get('kc1')), (op['k2'], op.get('kc2'))):
                     if isinstance(kk, list) and kc and kc != 'list':
                         ctx.probe('keys_as_' + kc)
@@ -227,13 +228,13 @@ class World(BaseWorld):
                 if is_mutable(obj):
                     callers.append((obj, copy.deepcopy(obj)))
             elif name == 'set_from_stored':
-                src = lib('getitem', T.__getitem__, tuple(op['src']))
+                src = lib('getitem', T.__getitem__, tuple(fresh_key(op['src'])))
                 if src is None:
                     ctx.log(skipped=True)
                 else:
                     ctx.probe('set_from_stored')
                     srcm = copy.deepcopy(model[frozenset(op['src'])])
-                    lib('setitem', T.__setitem__, (op['k1'], op['k2']), src)
+                    lib('setitem', T.__setitem__, (fresh_key(op['k1']), fresh_key(op['k2'])), src)
                     for a in listify(op['k1']):
                         for b in listify(op['k2']):
                             model[frozenset((a, b))] = copy.deepcopy(srcm)
@@ -277,7 +278,7 @@ class World(BaseWorld):
                     for a in types:
                         for b in types:
                             want = fn(copy.deepcopy(model.get(frozenset((a, b)))))
-                            got = lib('getitem', R.__getitem__, (a, b))
+                            got = lib('getitem', R.__getitem__, (fresh_key(a), fresh_key(b)))
                             if not same(got, want) if want is not None else got is not None:
                                 raise Violation('apply_result_wrong', 'apply', {'key': [a, b], 'got': repr(got)[:80],
                                                                                 'want': repr(want)[:80]}, step)
@@ -297,7 +298,7 @@ class World(BaseWorld):
             elif name == 'mutate_stored':
                 a, b = op['key']
                 p = frozenset((a, b))
-                got = lib('getitem', T.__getitem__, (a, b))
+                got = lib('getitem', T.__getitem__, (fresh_key(a), fresh_key(b)))
                 if got is None or not is_mutable(got):
                     ctx.log(skipped=True)
                 else:
@@ -350,7 +351,7 @@ class World(BaseWorld):
                 ctx.probe('iter_full' if op['full'] else ('iter_diag' if op['diagonal'] else 'iter_offdiag'))
             elif name == 'vset':
                 obj = materialise(op['val'])
-                lib('vsetitem', V.__setitem__, wrap_keys(op['k'], op.get('kc')), obj)
+                lib('vsetitem', V.__setitem__, wrap_keys(fresh_key(op['k']), op.get('kc')), obj)
                 for t in listify(op['k']):
                     vmodel[t] = obj
                 if isinstance(op['k'], list):
